@@ -15,7 +15,7 @@ from .common import (LABELS, NP_QUICK, Scenario, ask, gen_batch, needs_contexts,
                      same_value, trained)
 
 
-def relabel(env, lp, npol, N, A, d, to, m=1, twin=False, warm=False):
+def relabel(env, lp, npol, N, A, d, to, m=1, twin=False, warm=False, partial=False):
     ctxd = d if needs_contexts(lp, npol) else 0
     L1 = list(LABELS['int'][:A])
     L2 = list(LABELS[to][:A])
@@ -29,6 +29,13 @@ def relabel(env, lp, npol, N, A, d, to, m=1, twin=False, warm=False):
     b1.add_arm(extra1)
     b2.add_arm(extra2)
     mp[extra1] = extra2
+    if partial:
+        # a later batch that may name the added arm: its label can be wider / of another numeric kind than every label of
+        # the first batch (numpy infers the dtype of a decisions array per batch)
+        d2 = [env.choose('dp', L1 + [extra1])]
+        _, r2, c2 = gen_batch(env, 'p', L1, 1, reward_kind(lp), d=ctxd, fixed_n=1)
+        b1.partial_fit(*((np.asarray(d2), r2) + ((c2,) if ctxd else ())))
+        b2.partial_fit(*((np.asarray([mp[x] for x in d2]), r2) + ((c2,) if ctxd else ())))
     if warm:
         # the added arm is equidistant from the two (duplicate-feature) initial arms: the tie goes to the first in list order
         F = [[1.0, 0.0], [1.0, 0.0], [1.0, 1.0]]
@@ -108,7 +115,8 @@ def reward_law(env, lp, N, A, law, twin=False):
 
 
 BOUNDS = {
-    'quick': dict(relabelling='int -> str and int -> float, 2 arms + 1 added, 2-3 rows, all policy families',
+    'quick': dict(relabelling='int -> str and int -> float, 2 arms + 1 added, 2-3 rows, all policy families; strings of growing '
+                  'width and mixed int / float labels with a partial_fit after add_arm (UCB1, none / Radius / LSHNearest)',
                   row_order='3 rows, every non-identity permutation, context-free, linear, Radius, LSHNearest',
                   reward_laws='shift for EpsilonGreedy(0)/UCB1/Softmax, scale for LinGreedy(0); 2 arms, 3 rows'),
     'thorough': dict(row_order='4 rows (23 permutations)', relabelling='3 arms + 1'),
@@ -137,6 +145,12 @@ def scenarios(tier):
             for to in (('str',) if q else ('str', 'float')):
                 out.append(Scenario('relabel.%s.%s.%s' % (lp, npol, to), relabel,
                                     dict(lp=lp, npol=npol, N=2, A=2, d=1, to=to), weight=150, shards=4, max_paths=100000))
+    for npol in ([None, 'radius:cityblock', 'lsh:1:1'] if q else [None] + NP_QUICK):
+        for to in ('wide', 'mixed'):
+            out.append(Scenario('relabel.ucb1.%s.%s.partial' % (npol or 'none', to), relabel,
+                                dict(lp='ucb1', npol=npol, N=2, A=2, d=1, to=to, partial=True), weight=200 if npol else 30,
+                                shards=4 if npol else 1, max_paths=100000,
+                                bounds=dict(lp='ucb1', np=npol, to=to, history='fit, add_arm, partial_fit(1 row, any arm)')))
     N = 3 if q else 4
     for lp in cf + lin:
         out.append(Scenario('roworder.%s.none' % lp, row_order, dict(lp=lp, npol=None, N=N, A=2, d=1), weight=100,
